@@ -213,6 +213,9 @@ class Spec:
         obs = {"outs": [], "call_state": [], "phase": "init"}
 
         def on_end(kind, info):
+            if kind == "unsupported":
+                emit({"verdict": "harness-error", "message": "simulated environment lacks something the code asked for: "
+                      + str(info.get("exc"))})
             res = evaluate(plan, obs, k, kind, info)
             probes = dict(k.probes)
             # out-of-order arrival: results queue get_log indices not ascending
